@@ -42,10 +42,11 @@ COMPONENTS = ['initial_state_dist', 'actions', 'next_state_dist', 'reward', 'is_
 
 @contextlib.contextmanager
 def facades(uses):
-    if not S.symbolic():
-        yield
-        return
     trip = Tripwire('random', uses)
+    if not S.symbolic():
+        with patched((pol, dict(random=trip)), (opt, dict(random=trip)), (smdp, dict(random=trip)), (dd, dict(random=trip)), (dct, dict(random=trip))):
+            yield
+        return
     with M.facades(), patched((pol, dict(random=trip)), (opt, dict(random=trip)), (smdp, dict(random=trip)), (dd, dict(random=trip)), (dct, dict(random=trip))):
         yield
 
